@@ -109,10 +109,10 @@ Cand(h, n, T) ==
         LET u == UNION {Cand(h, n, T[2][i]) : i \in DOMAIN T[2]} IN
         IF <<"bool">> \in u THEN u \ {<<"boolfix">>} ELSE u
     ELSE IF T[1] = "list" THEN
-        (IF h[n].k = "q" /\ \A i \in DOMAIN h[n].c : Cand(h, h[n].c[i], T[2]) # {}
+        (IF h[n].k = "q" /\ h[n].t = "seq" /\ \A i \in DOMAIN h[n].c : Cand(h, h[n].c[i], T[2]) # {}
          THEN {T} ELSE {})
     ELSE IF T[1] = "dict" THEN
-        (IF h[n].k = "m" /\ \A i \in DOMAIN h[n].c :
+        (IF h[n].k = "m" /\ h[n].t = "map" /\ \A i \in DOMAIN h[n].c :
                 Cand(h, h[n].c[i], IF i % 2 = 1 THEN T[2] ELSE T[3]) # {}
          THEN {T} ELSE {})
     ELSE IF T[1] = "class" /\ T[2] \in ClassNames /\ IsReg(T[2]) THEN
